@@ -65,6 +65,15 @@ def runBift (v : Validator) (root : PPath) (nodes : List (PPath × Node)) (entri
   let safe := hex (st.safe.foldl (fun acc c => if acc.isEmpty then c else acc ++ [47] ++ c) [])
   status ++ " " ++ toString st.log.length ++ " " ++ safe ++ " " ++ " ".intercalate body
 
+/-- `c17.del <validator> <root> <nfs> <node>… <path> <query>…`: one `CHANGE_DELETE` of update_working_tree -/
+def runDel (v : Validator) (root : PPath) (nodes : List (PPath × Node)) (path : Bytes) (queries : List PPath) : String :=
+  let fs : FS := nodes.foldl (fun fs pn => fs.set pn.1 (some pn.2)) (fun _ => none)
+  let (st, err) := deleteOld (v.run foldAscii) root path { fs := fs, log := [], safe := [] }
+  let status := match err with | none => "ok" | some e => e.toString
+  let qs := dedup (queries ++ st.log.map Mut.target)
+  let body := qs.map (fun p => showPPath p ++ "=" ++ showNode (st.fs p))
+  status ++ " " ++ toString st.log.length ++ " " ++ " ".intercalate body
+
 def handle (op : String) (args : List String) : Option String :=
   match op, args with
   | "c17.elem", v :: h :: tbl => some <| match validator? v, bytes? h, parseFold tbl with
@@ -94,6 +103,15 @@ def handle (op : String) (args : List String) : Option String :=
       let entries ← ((rest.drop 1).take nent).mapM entry?
       let queries ← ((rest.drop 1).drop nent).mapM ppath?
       some (runBift v root nodes entries queries)).getD "bad-arg"
+  | "c17.del", v :: root :: nfs :: rest => some <| (do
+      let v ← validator? v
+      let root ← ppath? root
+      let nfs ← nat? nfs
+      let nodes ← (rest.take nfs).mapM node?
+      let rest := rest.drop nfs
+      let path ← bytes? (← rest.head?)
+      let queries ← (rest.drop 1).mapM ppath?
+      some (runDel v root nodes path queries)).getD "bad-arg"
   | "c17.cleanup", [m] => some <| match nat? m with
       | some m => toString (cleanupMode m) | none => "bad-arg"
   | _, _ => none
